@@ -334,6 +334,7 @@ def run(tier: str, seed: int) -> int:
     # extension (what each KIND of monitor records per call, and when): runs beside the lifecycle phases
     from .. import subcheck
     mk = subcheck.spawn(PID, "harness.props.monitor_kinds", "phase", tier, seed + 1, "monitor-kinds")
+    pt = subcheck.spawn(PID, "harness.props.pool_tags", "phase", tier, seed + 2, "pool-tags")
     d1, d2 = (5, 4) if quick else (8, 6)
     FT = (False, True)
     mc = [
@@ -415,6 +416,7 @@ def run(tier: str, seed: int) -> int:
     _c20.paths_phase(chk, tier, pa_pool.submit(_c20.pa_start, tier))
     pa_pool.shutdown()
     subcheck.join(chk, mk)
+    subcheck.join(chk, pt)
     return chk.finish()
 
 
@@ -423,6 +425,12 @@ def replay(path: str) -> int:
     import json
     data = json.loads(open(path).read())
     rep = data["replay"]
+    if rep.get("extension") == "PoolTags":
+        from . import pool_tags
+        rc = pool_tags.replay(rep)
+        if rc:
+            print(f"VIOLATION property=C15 replay={path}")
+        return rc
     if "init" not in rep:
         print(f"[C15] replay {path}: specification-level counterexample (TLC output kept in the file), "
               "nothing to execute on the code")
